@@ -236,7 +236,16 @@ func (d *onDriver) opFunc(c *onClient, pi int, op onOp) sched.Op {
 
 func (d *onDriver) Run(x *sched.Exec, raw json.RawMessage) json.RawMessage {
 	d.x = x
-	x.OptDouble, x.OptParkUnl = true, true
+	// OnceP rests on sound bounds only (OnceP.tla, B1-B5: fnenter/fnleave are exact, calls and returns
+	// bound the sections), so the scheduler refinements are on: combined grant+cancel steps
+	// (sched.Exec.Double) and park points at the END of critical sections (ParkUnl: a caller stops
+	// between its section and its select, the worker between `o.prom = nil` and its ctx.Err() check).
+	// "-opt coarse" switches both off (to compare detection with and without them).
+	if !strings.Contains(Opt, "coarse") {
+		x.OptDouble, x.OptParkUnl = true, true
+	}
+	// granularity of this execution (mirrors sched.Exec.parkUnlActive); logged for the record, no
+	// condition of OnceP depends on it
 	fine := x.OptParkUnl && !x.LogSteps && x.ParkUnl
 	if len(x.Sched) > 0 {
 		fine = x.OptParkUnl && !x.LogSteps && x.Sched[0] == "!parkunl"
